@@ -29,6 +29,17 @@ CLAIMED["C05"] = dict(
     technique="CBMC function contracts (dfcc) on extracted C at T=unsigned, polynomial identities via cbmc --z3 --outfile + z3 sum-of-monomials tactic",
     ref="6/C05")
 
+CLAIMED["C03"] = dict(
+    text="Proof: the members of class half are extracted from half.h/halfLimits.h and put under contract: the C conversion functions as compiled in C++ (same RNE / value specs as C01, all inputs), half(float) and operator float() through those contracts, the member round trip as a lemma, += -= *= /= with half and float right-hand sides == f2h(h2f(a) op b) for all operand pairs, unary minus flips bit 15, the seven classification predicates against the binary16 class for all 2^16 patterns plus the lemma 'exactly one class, consistent with isFinite/isNegative and with the float class of the value', round(n) for all non-NaN patterns and every n (sign, finiteness, cleared low bits, within half a unit, truncation exactly at the overflow edge), numeric_limits<half>/HALF_* extremes against the conversions.",
+    note="Trusted: clang AST + cxx2c (differentially validated), cbmc 6.11 SAT. For *= and /= the float operation is an uninterpreted function (same symbol in code and spec) because SAT cannot match two multiplier circuits; += and -= use IEEE semantics. Stream I/O and halfFunction are not covered.",
+    technique="CBMC function contracts (dfcc, enforce + replace) on extracted C, SAT back end, full 2^16 / 2^32 domains",
+    ref="6/C03")
+CLAIMED["C07"] = dict(
+    text="Proof: for Vec2/3/4 normalizeExc/normalize/normalizeNonNull and normalizedExc/normalized/normalizedNonNull, and Matrix22/33/44 inverse/invert/gjInverse/gjInvert with and without the singExc flag, dfcc-enforced contracts give the frame, 'throws only with the flag / exactly for zero length', and the documented exception kind; relational lemma units call the checked and the real unchecked function on the same symbolic input and prove the results identical slot for slot whenever the checked form returns, and that it throws only where the plain form returns the identity (Vec all dims, Matrix22, Matrix33 inverse/invert).",
+    note="Mode ABS for these units: + - * / and sqrt are uninterpreted functions (identical operation sequences are identical results for ANY arithmetic, in particular IEEE); comparisons are real. Trusted: clang AST + cxx2c, cbmc, cvc5, minisat. Not covered: relational clause for the Gauss-Jordan and 4x4 copies (solver memory), Vec3(Vec4,InfException), Frustum and MatrixAlgo exc variants, guard placement within a factor four of max.",
+    technique="CBMC contracts (dfcc) for frame/exception clauses + relational lemma harnesses over the two real functions with uninterpreted arithmetic, cvc5/SAT",
+    ref="6/C07")
+
 NA = {
 }
 
